@@ -91,6 +91,8 @@ impl MemoryManagerInner {
         }
         for token_ptr in &self.tokens {
             unsafe {
+                #[cfg(feature = "multiqueue2_verif")]
+                crate::verif_hooks::touch(*token_ptr);
                 let token = &**token_ptr;
                 let epoch = token.epoch.load(MAYBE_ACQUIRE);
                 if epoch != at {
@@ -168,6 +170,8 @@ impl MemoryManager {
     #[cold]
     pub fn update_token(&self, val: *const MemToken) {
         unsafe {
+            #[cfg(feature = "multiqueue2_verif")]
+            crate::verif_hooks::touch(val);
             let token = &*val;
             let epoch = self.epoch.load(Ordering::Relaxed);
             let token_e = token.epoch.load(Ordering::Relaxed);
